@@ -103,21 +103,32 @@ def classify_ptr(body, a, b, call_start):
     var = m.group(1).strip()
     var = re.sub(r"\s+", "", var)
     v = re.escape(var)
-    tests = [rf"!\s*{v}(?![\w\[\.\-])", rf"{v}\s*==\s*NULL", rf"{v}\s*!=\s*NULL", rf"if\s*\(\s*{v}\s*\)", rf"if\s*\(\s*{v}\s*&&",
-             rf"&&\s*{v}\s*[\)&]", rf"{v}\s*\?", rf"CHECK_ARENA_ARRAY\(\s*{v}\s*,", rf"\(\s*{v}\s*==\s*NULL",
-             rf"return\s+{v}\s*;"]
-    # look ahead: up to the next 14 lines, but stop at a dereference of the variable that comes first
+    nb = r"(?![\w\[\.\-])"
+    neg = [rf"!\s*{v}{nb}", rf"{v}\s*==\s*NULL", rf"NULL\s*==\s*{v}{nb}", rf"CHECK_ARENA_ARRAY\(\s*{v}\s*,"]
+    pos = [rf"if\s*\(\s*{v}\s*\)", rf"if\s*\(\s*{v}\s*&&", rf"&&\s*{v}\s*[\)&]", rf"{v}\s*\?", rf"{v}\s*!=\s*NULL"]
+    ret = [rf"return\s+{v}\s*;"]
+    # look ahead: up to the next 16 lines, but a dereference of the variable that comes first decides
     look = "\n".join(after.split("\n")[:16])
-    first_test = min([mm.start() for t in tests for mm in [re.search(t, look)] if mm] or [10 ** 9])
-    deref = [rf"{v}\s*\[", rf"{v}\s*->", rf"\*\s*{v}\b", rf"mem(?:cpy|set|move)\s*\(\s*{v}\b"]
-    first_use = min([mm.start() for t in deref for mm in [re.search(t, look)] if mm] or [10 ** 9])
-    if first_test < first_use:
-        if re.search(rf"return\s+{v}\s*;", look) and first_test == re.search(rf"return\s+{v}\s*;", look).start():
-            return "Propagated"
-        return "Checked"
-    if first_test == 10 ** 9 and first_use == 10 ** 9:
-        # stored and neither tested nor used nearby: a later NULL-tolerant consumer (free, if (x) ...) cannot be seen here
+
+    def first(pats):
+        return min([mm.start() for t in pats for mm in [re.search(t, look)] if mm] or [10 ** 9])
+    first_neg, first_pos, first_ret = first(neg), first(pos), first(ret)
+    deref = [rf"{v}\s*\[", rf"{v}\s*->", rf"\*\s*{v}{nb}", rf"mem(?:cpy|set|move)\s*\(\s*{v}{nb}"]
+    first_use = first(deref)
+    first_test = min(first_neg, first_pos, first_ret)
+    if first_use < first_test:
         return "Unchecked"
+    if first_neg < 10 ** 9 and first_neg <= first_pos:
+        return "Checked"
+    if first_ret < 10 ** 9:
+        return "Propagated"          # e.g. if (copy) memcpy(copy, ..); return copy;
+    if first_pos < 10 ** 9:
+        # only a positive guard: NULL is silently treated as "nothing to do" unless an else branch (or a
+        # later negative test) deals with it
+        tail = look[first_pos:]
+        if re.search(r"\}\s*else\b", tail) or first_neg < 10 ** 9:
+            return "Checked"
+        return "Ignored"
     return "Unchecked"
 
 
@@ -175,11 +186,21 @@ def classify_status(body, a, b):
 
 LATCHING_HELPERS = ("arena_strdup_thrift", "arena_bindup_thrift")
 
+# Sites where a failed request is, by the function's contract, an accepted no-op (nothing is lost): a
+# positive-only guard is the correct handling there.  Everything else with a positive-only guard is Ignored.
+ACCEPTED_NOOP = {
+    ("core/buffer.c", "carquet_buffer_shrink_to_fit", "realloc"):
+        "shrinking is an optimisation: when realloc fails the buffer keeps its larger allocation and OK is correct",
+}
+
 
 def scan(repo):
     sites = _scan(repo)
     # a helper that latches out-of-memory in the decoder: its callers need not test the pointer, provided
     # every request inside the helper is itself checked
+    for s in sites:
+        if s["cls"] == "Ignored" and (s["file"], s["func"], s["callee"]) in ACCEPTED_NOOP:
+            s["cls"] = "Checked"
     for h in LATCHING_HELPERS:
         inner = [s for s in sites if s["func"] == h]
         latching = bool(inner) and all(s["cls"] == "Checked" for s in inner)
